@@ -63,6 +63,24 @@ def main():
             if res.coverage.get(a, (0, 0))[0] == 0 and not (a == 'ReadSkip' and SS == 1):
                 raise E.MachineryError(f'action {a} never taken for MB={MB} SS={SS}')
     run_spec(V, 'Streaming/Constant', consts(3, 2, 1, 10, scoring=False))
+    # liveness: under weak fairness of the loop every run terminates and a full buffer is always processed; control: without
+    # fairness the same property has a (stuttering) counterexample, so it is not vacuous
+    wdl = E.workdir('c08l')
+    try:
+        cl = consts(3, 2, 1, 7 if tier == 'quick' else 10, pairs='{1}', scores='{0,1}')
+        cfgl = E.write_cfg(os.path.join(wdl, 'live.cfg'), spec='FairSpec', constants=cl, properties=['Terminates', 'FullBufferProcessed'])
+        rl = E.run_tlc('Streaming', cfgl, timeout=900)
+        E.require_ok(rl, 'Streaming/liveness')
+        V.add_tlc(rl, 'Streaming/liveness')
+        V.tlc_violation(rl, 'Streaming/liveness')
+        cfgn = E.write_cfg(os.path.join(wdl, 'nofair.cfg'), spec='Spec', constants=cl, properties=['Terminates'])
+        rn = E.run_tlc('Streaming', cfgn, timeout=900)
+        E.require_ok(rn, 'Streaming/liveness-control')
+        if rn.ok:
+            raise E.MachineryError('liveness control: Terminates holds without fairness (vacuous)')
+        V.notes['liveness'] = 'FairSpec => Terminates, FullBufferProcessed (TLC); control: violated without fairness'
+    finally:
+        E.cleanup(wdl)
 
     observed_invalid = [0]
     # ---- binding A: tail-free configuration (TailMin >= MB, as in the code for small batches) replayed literally
@@ -183,7 +201,7 @@ def main():
             if r is None or 'ok' not in r:
                 V.violation('raises:' + key, f'estimate_importances_minibatches failed: {PC.failure_text(r)}', rep)
                 continue
-            trace = SC.to_trace(r['ok']['events'], final=r['ok']['final'] or [], kinds=kinds)
+            trace = SC.to_trace(r['ok']['events'], final=r['ok']['final'] or [], kinds=kinds, header_id=job['columns'][0] if job['columns'][0] == 'id' else None)
             res = SC.validate_stream(wd, trace, MB=MB, SS=SS, NCols=len(job['columns']), NLines=nl, scoring=(heur != 'Constant'), name=f't{n}')
             V.add_tlc(res, f'TraceStreaming/{n}')
             if not res.ok:
@@ -217,11 +235,17 @@ def main():
                 V.notes['negative_controls'] = 'a batch event with one row removed and a checkpoint with one score +50 units are rejected'
 
         # ---- CLI run: pairwise_ranks.tsv and the checkpoint through the real entry point
-        ncli = 1 if tier == 'quick' else 4
+        ncli = 2 if tier == 'quick' else 5
         for c in range(ncli):
-            MB, SS = rng.choice([(1100, 1), (1300, 2), (2000, 1)])
+            MB, SS = rng.choice([(1100, 1), (1300, 2), (2000, 1)]) if c != 1 else (1100, 2)
             extra = rng.choice([1025, 1024, 5])
             cols, lines, kinds = SC.gen_file(rng, (2 * MB + extra) * SS, bad_rate=0.01)
+            label_name = 'label'
+            if c == 1:
+                # a quoted header line: the tool's column names keep the quotes (parse_csv_raw splits the raw header), the header is
+                # still the header - skipped, never a data row
+                lines[0] = ','.join(f'"{x}"' for x in cols) + '\n'
+                label_name = '"label"'
             sub = os.path.join(wd, f'cli{c}')
             os.makedirs(os.path.join(sub, 'ds'))
             with open(os.path.join(sub, 'ds', 'data.csv'), 'w') as f:
@@ -229,7 +253,7 @@ def main():
             evf = os.path.join(sub, 'events.json')
             heur = 'MI-numba-randomized'
             rc, err = PC.run_cli(dict(task='ranking', data_path='ds', data_source='csv-raw', minibatch_size=MB, subsampling=SS, heuristic=heur, num_threads=2,
-                                      output_folder='out', include_cardinality_in_feature_names=rng.choice(['True', 'False'])), sub, events=evf, rec_opts={})
+                                      output_folder='out', label_column=label_name, include_cardinality_in_feature_names=rng.choice(['True', 'False'])), sub, events=evf, rec_opts={})
             key = f'cli:MB={MB} SS={SS} lines={len(kinds)} seed={seed}'
             if rc != 0 or not os.path.exists(evf):
                 V.violation('cli-failed:' + key, f'ranking task exited {rc}: {err[-400:]}', {'MB': MB, 'SS': SS})
@@ -239,7 +263,7 @@ def main():
                 rows = list(csv.reader(f, delimiter='\t'))[1:]
             written = [[SC.strip_annotation(a), SC.strip_annotation(b), int(round(float(s) * 2 ** 20))] for a, b, s in rows]
             # the returned aggregation is what the task wrote (no separate 'final' observation in a CLI run): final := written table
-            trace = SC.to_trace(events, final=written, written=written)
+            trace = SC.to_trace(events, final=written, written=written, header_id=('"id"' if c == 1 else 'id'))
             res = SC.validate_stream(wd, trace, MB=MB, SS=SS, NCols=len(cols), NLines=len(kinds), scoring=True, name=f'cli{c}')
             V.add_tlc(res, f'TraceStreaming/cli{c}')
             if not res.ok:
